@@ -34,6 +34,24 @@ static inline str str_from_range(const char *a, const char *b) {
 #endif
   r.data[n] = 0; r.len = n; return r; }
 static inline str str_from_sv(sv s) { return str_from_range(s.data, s.data + s.len); }
+/* std::count over characters: a loop; callers that need it unbounded must give it a contract */
+static inline long shim_count_char(const char *a, const char *b, char c) {
+  long n = 0;
+  for (const char *p = a; p != b; ++p) if (*p == c) n++;
+  return n; }
+/* concatenation: length exact; the first byte of the result is exact, the other bytes are unconstrained unless
+   SHIM_STR_PRECISE is defined (over-approximation, see DESIGN.md section 3) */
+static inline str str_concat(sv a, sv b) {
+  SHIM_ASSERT(a.len < ((unsigned long)1 << 40) && b.len < ((unsigned long)1 << 40), "shim.string.size_sane");
+  unsigned long n = a.len + b.len;
+  str r; r.data = (char *)malloc(n + 1); __CPROVER_assume(r.data != 0);
+#ifdef SHIM_STR_PRECISE
+  if (a.len > 0) memcpy(r.data, a.data, a.len);
+  if (b.len > 0) memcpy(r.data + a.len, b.data, b.len);
+#else
+  if (n > 0) r.data[0] = a.len > 0 ? a.data[0] : b.data[0];
+#endif
+  r.data[n] = 0; r.len = n; return r; }
 static inline str *str_assign(str *d, sv s) { *d = str_from_sv(s); return d; }
 static inline str str_substr(const str *s, unsigned long pos, unsigned long n) {
   if (pos > s->len) { __exc = EXC_out_of_range; return str_empty(); }
